@@ -84,4 +84,123 @@ def uintLittleEndian (w : Nat) (s : List Nat) : Nat := leValNat (s.take w)
 def putUintBigEndian (w : Nat) (b : List Nat) (v : Nat) : List Nat := (leBytesNat w v).reverse ++ b.drop w
 def uintBigEndian (w : Nat) (s : List Nat) : Nat := leValNat (s.take w).reverse
 
+/-! ## Whole functions (`namespace Generated.W` of Funcs.lean): panics, pointers, external calls
+
+  A whole Go function is translated with its control skeleton into the `Option` monad: `none` is a
+  Go run-time panic (an explicit `panic(…)`, an index or slice bound out of range, a nil pointer
+  dereference); which of them is not distinguished.  A `*T` that may be nil (a field or a local of
+  pointer type) is an `Option T`; the RECEIVER and the pointer PARAMETERS of a translated function are
+  values of type `T` (the caller dereferences, i.e. panics on nil, before the call); a function that
+  assigns fields of a pointer parameter returns the updated value (state passing).
+  Integers stay bit patterns (see above); a slice or string is the list of its elements and
+  `a[lo:hi]` is checked against `len a` (the translation does not model capacities: it assumes
+  `cap a = len a`, which holds for strings and is what the model `Slim.sliceBytes` assumes too). -/
+
+/-- a Go run-time panic -/
+def panic {α : Type} : Option α := none
+
+/-- `*p`, `p.f`, `p.m(…)` through a pointer that may be nil -/
+def deref {α : Type} (p : Option α) : Option α := p
+
+/-- `a[i]`, the index of a signed type of width `w`: a negative index or one `≥ len a` panics -/
+def idxS {α : Type} (w : Nat) (a : List α) (i : Nat) : Option α :=
+  if i < 2 ^ (w - 1) then a[i]? else none
+
+/-- `a[i]`, the index of an unsigned type -/
+def idxU {α : Type} (a : List α) (i : Nat) : Option α := a[i]?
+
+/-- `a[lo:hi]`, bounds of a signed type of width `w`: panics unless `0 ≤ lo ≤ hi ≤ len a` -/
+def sliceS {α : Type} (w : Nat) (a : List α) (lo hi : Nat) : Option (List α) :=
+  if lo < 2 ^ (w - 1) ∧ hi < 2 ^ (w - 1) ∧ lo ≤ hi ∧ hi ≤ a.length
+  then some ((a.drop lo).take (hi - lo)) else none
+
+/-- `a[lo:]` -/
+def sliceFromS {α : Type} (w : Nat) (a : List α) (lo : Nat) : Option (List α) :=
+  if lo < 2 ^ (w - 1) ∧ lo ≤ a.length then some (a.drop lo) else none
+
+/-- `a[:hi]` -/
+def sliceToS {α : Type} (w : Nat) (a : List α) (hi : Nat) : Option (List α) :=
+  if hi < 2 ^ (w - 1) ∧ hi ≤ a.length then some (a.take hi) else none
+
+/-! ### ASSUMED semantics of the external package github.com/openacid/low (v0.1.21), which is
+  outside /repo and is not translated.  `Rank64`, `Rank128` are transcribed statement by statement from bitmap/rank.go with the
+  operations above (int32 wrap-around, index panics); `bitstr.Len` is its one expression; `Select32R64` is specified by what it computes on a well-formed index (entries in
+  `[0, 2^31)`): its word-level search (`select8Lookup`, the unbounded `for` over the rank index) is
+  not transcribed.  The bridge lemmas `SlimProps/BridgeSem/Extern.lean` relate them to the model's
+  `Bits.rank64`, `Bits.rank128`, `Bits.select32R64`, `Slim.bitstrLen`. -/
+
+/-- `bitmap.Mask[k]` as an element of the array `[65]uint64` (an index above 64 panics) -/
+def maskAt (k : Nat) : Option Nat := if k ≤ 64 then some (2 ^ k - 1) else none
+
+/-- `bitmap.Bit[k]` as an element of the array `[64]uint64` -/
+def bitAt (k : Nat) : Option Nat := if k < 64 then some (2 ^ k) else none
+
+/-- `bitmap.Rank64(words, rindex, i) (int32, int32)` -/
+def rank64 (words rindex : List Nat) (i : Nat) : Option (Nat × Nat) := do
+  let wordI := sar 32 i 6
+  let j := and i 63
+  let n ← idxS 32 rindex wordI
+  let w ← idxS 32 words wordI
+  let m ← maskAt j
+  pure (add 32 n (conv 64 true 32 (popcount64 (and w m))), and (conv 64 false 32 (shr w j)) 1)
+
+/-- `bitmap.Rank128(words, rindex, i) (int32, int32)` -/
+def rank128 (words rindex : List Nat) (i : Nat) : Option (Nat × Nat) := do
+  let wordI := sar 32 i 6
+  let j := and i 63
+  let atRight := and wordI 1
+  let n ← idxS 32 rindex (sar 32 (add 32 i 64) 7)
+  let w ← idxS 32 words wordI
+  let cnt1 := conv 64 true 32 (popcount64 w)
+  let m ← maskAt j
+  pure (add 32 (sub 32 n (mul 32 atRight cnt1)) (conv 64 true 32 (popcount64 (and w m))),
+        and (conv 64 false 32 (shr w j)) 1)
+
+/-- position of the `k`-th (0-based) set bit among the low 64 bits of `w` -/
+def selectInWord (w k : Nat) : Option Nat := ((List.range 64).filter (fun i => w.testBit i))[k]?
+
+/-- first set bit at a position `≥ pos`, else `64 * len words` -/
+def nextOne (words : List Nat) (pos : Nat) : Nat :=
+  let total := words.length * 64
+  match (List.range' pos (total - pos)).find? (fun i => (words.getD (i / 64) 0).testBit (i % 64)) with
+  | some i => i
+  | none => total
+
+/-- `for ; rankIndex[wordI+1] <= i; wordI++ {}` -/
+def select32R64Walk (ridx : List Nat) (i : Nat) : Nat → Nat → Option Nat
+  | 0, _ => none
+  | fuel + 1, wordI =>
+    match ridx[wordI + 1]? with
+    | none => none
+    | some r => if r ≤ i then select32R64Walk ridx i fuel (wordI + 1) else some wordI
+
+/-- `bitmap.Select32R64(words, selectIndex, rankIndex, i) (int32, int32)`: the position of the `i`-th
+    set bit and the position of the next one (or `64 * len words`). -/
+def select32R64 (words sidx ridx : List Nat) (i : Nat) : Option (Nat × Nat) :=
+  if 2 ^ 31 ≤ i then none else do
+  let s0 ← sidx[i / 32]?
+  let wordI ← select32R64Walk ridx i (ridx.length + 1) (s0 / 64)
+  let w ← words[wordI]?
+  let base ← ridx[wordI]?
+  let off ← selectInWord w (i - base)
+  let a := wordI * 64 + off
+  pure (wrap 32 a, wrap 32 (nextOne words (a + 1)))
+
+/-- `bitstr.Len(bs) int32`: `int32(l)<<3 - 16 + int32(bits.OnesCount8(bs[l-1]))` with `l = len(bs)`:
+    panics on the empty slice (`bs[-1]`), else the `int32` pattern of `8*l - 16 + popcount(last byte)` -/
+def bitstrLen (bs : List Nat) : Option Nat :=
+  match bs.getLast? with
+  | none => none
+  | some last => some (wrap 32 (bs.length * 8 + (2 ^ 32 - 16) + popcount64 last))
+
+/-- `bytes.Equal(a, b)` -/
+def bytesEqual (a b : List Nat) : Bool := a == b
+
+/-- `bytes.Compare(a, b)` as an `int` pattern: -1, 0, 1 -/
+def bytesCompare : List Nat → List Nat → Nat
+  | [], [] => 0
+  | [], _ :: _ => 2 ^ 64 - 1
+  | _ :: _, [] => 1
+  | x :: xs, y :: ys => if x < y then 2 ^ 64 - 1 else if y < x then 1 else bytesCompare xs ys
+
 end Generated.Go
